@@ -17,6 +17,15 @@ var MaxInputLength = 8
 var ErrInputTooLong = errors.New("input too long")
 
 // InputWrite writes into the bytes it is given (C17.ro control).
+// lastInput: InputRetain keeps the caller's bytes (C17.ro retention control).
+var lastInput struct{ b []byte }
+
+// InputRetain remembers the slice it was given.
+func InputRetain(input []byte) int {
+	lastInput.b = input[1:]
+	return len(input)
+}
+
 func InputWrite(input []byte) int {
 	if len(input) > 0 {
 		input[0] = 'x'
